@@ -34,3 +34,22 @@ Theorem C02_serialised_identifier : forall md5 m secret b a,
   radmsg2buf md5 m secret = Ok (Some (b, a)) -> nth 1 b 0 = m_id m.
 Proof. exact radmsg2buf_id. Qed.
 Print Assumptions C02_serialised_identifier.
+
+(* ---- over histories: in every state reachable from the empty one by any sequence of the operations on the request
+   state (Proxy.hstep), under any allocation failures, whatever is queued for delivery to a client is (the reply to) a
+   live request that came from THAT client: a reply goes to the client association that sent the matching request and
+   to no other *)
+From RSP Require Import BaseLemmas Keeps_proofs Refs_proofs Tight_proofs Reg_proofs Balance_proofs Rqi_proofs.
+Local Open Scope N_scope.
+
+Theorem C02_queue_owner : forall md5 rx cfg nclients nservers ops c h,
+  let st := fold_left (hstep md5 rx cfg) ops (init_state nclients nservers) in
+  In h (c_replyq (get_client st c)) -> exists r, get_rq st h = Some r /\ rq_from r = Some c.
+Proof.
+  intros md5 rx cfg nc ns ops c h st Q.
+  assert (S : safe st zero) by (apply safe_history; apply safe_init).
+  assert (Rq : RQI st) by (apply RQI_history; [apply safe_init | apply RQI_init]).
+  destruct (safe_no_dangling st S h ltac:(pose proof (queued_refs st c h Q); lia)) as (r & G & _).
+  exists r. split; [exact G | exact (Rq c h r Q G)].
+Qed.
+Print Assumptions C02_queue_owner.
